@@ -172,4 +172,24 @@ PROPS = {
                     thorough="every ordered pair of requests (so that two emission sites of one metric meet in one process)"),
         outside="protobuf/gRPC decoding; resource exhaustion; more than 2 requests per process; metric emission sites not reached by these handlers (election callbacks, retry loop, compaction histories)",
     ),
+    "C11": dict(
+        harnesses=[
+            dict(run="pkg/zzc11.VerifC11Memkv", quick=dict(entries=2, ops=1), thorough=dict(entries=2, ops=2), covers=["batch-applied", "batch-refused", "get-hit", "iter-several", "iter-descending", "changed-under-iterator", "done"]),
+            dict(run="pkg/zzc11.VerifC11MemkvMetrics", quick=dict(entries=1, ops=1), thorough=dict(entries=2, ops=1), covers=["batch-applied", "batch-refused", "done"]),
+        ],
+        bounds=dict(quick="in-memory adapter and metrics wrapper only: 2 initial entries with symbolic keys of 1..2 bytes over {a,b,c} and symbolic values; then one batch of 1 operation (put-if-absent / CAS / put / delete with symbolic key, value, expected value), or one Get, one Del, one compare-and-delete (entry optionally changed under the iterator), or one iteration with symbolic bounds in either direction and limit 0..2 — differential against the contract store",
+                    thorough="batches of up to 2 operations (several conditions, a condition on a key written or deleted earlier in the batch)"),
+        outside="the Badger and TiKV adapters (their engine models were not built: see DESIGN.md 'not covered'); TTL expiry inside engines; keys longer than 2 bytes",
+        assumptions=["github.com/huandu/skiplist is replaced by a sorted-sequence model; every counterexample is replayed on the real skiplist"],
+    ),
+    "C19": dict(
+        harnesses=[
+            dict(run="pkg/zzc19.VerifC19Memkv", quick=dict(preempt=2), thorough=dict(preempt=3), covers=["done"], race=True, race_replay=True, stress=40),
+            dict(run="pkg/zzc19.VerifC19Backend", quick=dict(preempt=1), thorough=dict(preempt=2), covers=["done"], race=True, race_replay=True, stress=40),
+        ],
+        bounds=dict(quick="happens-before (vector clock) monitor over the explored schedules of: reader ∥ writer ∥ iterator on the in-memory engine (<= 2 delays); update ∥ {get, watch} / {list, count} / {compact, compact} on one node over the real in-memory adapter with the sequencer and fan-out threads in the schedule (<= 1 delay)",
+                    thorough="one more delay each"),
+        outside="Badger / TiKV client internals; the skiplist's internals (one abstract location per list); the Go memory model beyond happens-before; request mixes other than the listed ones; the retry loop and the election goroutine",
+        assumptions=["the verdict is a happens-before computation on each explored schedule: the solver only decides which paths are feasible (weakest fit for the technique, see DESIGN.md C19)"],
+    ),
 }
